@@ -81,15 +81,21 @@ pub fn make_chain(rng: &mut crate::kit::SimRng, nval: usize, first_block: u64, f
 
 /// A block with a certificate signed by `signers` (all validators if None).
 pub fn make_final(c: &Committee, number: u64, view: u64, payload: &[u8], signers: Option<&[usize]>) -> v2::FinalBlock {
+    make_final_epoch(c, number, view, payload, signers, 0)
+}
+
+/// A block whose certificate names `epoch` and is genuinely signed (over that very vote) by the
+/// committee `c`.
+pub fn make_final_epoch(c: &Committee, number: u64, view: u64, payload: &[u8], signers: Option<&[usize]>, epoch: u64) -> v2::FinalBlock {
     let payload = validator::Payload(payload.to_vec());
     let vote = v2::ReplicaCommit {
-        view: v2::View { genesis: c.genesis.hash(), epoch: validator::EpochNumber(0), number: validator::ViewNumber(view) },
+        view: v2::View { genesis: c.genesis.hash(), epoch: validator::EpochNumber(epoch), number: validator::ViewNumber(view) },
         proposal: v2::BlockHeader { number: validator::BlockNumber(number), payload: payload.hash() },
     };
     let mut qc = v2::CommitQC::new(vote.clone(), &c.schedule);
     let all: Vec<usize> = (0..c.n()).collect();
     for &i in signers.unwrap_or(&all) {
-        qc.add(&c.keys[i].sign_msg(vote.clone()), c.genesis.hash(), validator::EpochNumber(0), &c.schedule).unwrap();
+        qc.add(&c.keys[i].sign_msg(vote.clone()), c.genesis.hash(), validator::EpochNumber(epoch), &c.schedule).unwrap();
     }
     v2::FinalBlock { payload, justification: qc }
 }
@@ -164,9 +170,15 @@ pub async fn run(seed: u64, sched: Rc<Sched>, keep_log: bool) -> (CaseResult, Ve
                 }
                 (validator::Block::FinalV2(_), 3) => {
                     // a different, validly certified block cannot exist with all-honest signers; use wrong epoch
-                    let mut f = make_final(c, *n, *n + 1, &[0x27, *n as u8], None);
-                    f.justification.message.view.epoch = validator::EpochNumber(1);
-                    ("wrong_epoch", f.into())
+                    // Half of them: the epoch altered after signing; the other half: a certificate
+                    // for an epoch the node has no schedule for, genuinely signed by this committee.
+                    if *n % 2 == 0 {
+                        let mut f = make_final(c, *n, *n + 1, &[0x27, *n as u8], None);
+                        f.justification.message.view.epoch = validator::EpochNumber(1);
+                        ("wrong_epoch", f.into())
+                    } else {
+                        ("unknown_epoch_genuinely_signed", make_final_epoch(c, *n, *n + 1, &[0x27, *n as u8], None, 3).into())
+                    }
                 }
                 (validator::Block::FinalV2(_), _) => (
                     "pregenesis_above_genesis",
